@@ -8,6 +8,9 @@ CHECKS = {
      text='Every execution path of the real encodeBase64/decodeBase64 code (clang IR of /repo, regenerated each run) is explored for all inputs within the stated length bound; each assertion and memory access is an SMT query over all byte values on that path.',
      note='Bounds: see evidence. Trusted: z3, clang-14 IR semantics as implemented by engine/llsym.py, engine models of malloc/memcpy/strlen; allocation never fails.'),
 }
+CHECKS['C08'] = dict(level='model_checking', design='1/C08',
+     text='All execution paths of the real UTF-8/16/32 converters, count/chars/iteration and case-mapping code are explored for every sequence of 1-3 scalar values and every byte string within the stated lengths (stored flush against the end of their allocation); every assertion and memory access is an SMT query over all values on the path.',
+     note='Bounds in evidence. Case tables enter the solver as array constants (one axiom per entry). Trusted: z3, engine IR semantics, engine models of malloc/memcpy/strlen.')
 NA = {
 }
 ALL = ['C%02d' % i for i in range(1, 21)]
